@@ -277,7 +277,11 @@ func (fv *FV) applyContract(fr *Frame, st *State, c *Contract, args []Value, arg
 		}
 	}
 	for _, e := range c.Ensures {
-		st.assume(post.evalBool(e))
+		post.assume(st, e)
+	}
+	for _, e := range c.Assumed {
+		post.assume(st, e)
+		fv.trusted[c.Pkg+"::"+c.Key+" [assumed clause: "+e.String()+"]"] = true
 	}
 	return []Outcome{{st: st, results: res}}
 }
@@ -287,22 +291,22 @@ func (fv *FV) frameCheckLoc(st *State, m modLoc, in ssa.Instruction, callee stri
 		return
 	}
 	kind := fmt.Sprintf("call-frame %s #%d", callee, ord)
+	var g *Term
 	switch m.kind {
 	case "cell", "gcell":
-		fv.frameCheckNamed(st, m.addr, false, kind, in.Pos())
+		g = fv.frameAlts(st, m.addr, false, nil, nil)
 	case "mem":
-		fv.frameCheckNamed(st, m.addr, true, kind, in.Pos())
+		// an empty window modifies nothing
+		g = Or(fv.idxLe(m.hi, m.lo), fv.frameAlts(st, m.addr, true, m.lo, m.hi))
 	case "fields":
-		// every field of the struct: allowed if the struct itself is listed (fields) or is fresh/local
-		fv.frameCheckNamed(st, Emb(m.addr, -1), false, kind, in.Pos())
+		g = fv.frameAlts(st, Emb(m.addr, -1), false, nil, nil)
 	case "ghost":
-		ok := False
+		g = False
 		for _, c := range st.mods {
 			if c.kind == "ghost" && c.name == m.name {
-				ok = True
+				g = True
 			}
 		}
-		fv.oblige(st, kind, ok, in.Pos())
 	case "ghostidx":
 		alts := []*Term{}
 		for _, c := range st.mods {
@@ -313,46 +317,12 @@ func (fv *FV) frameCheckLoc(st *State, m modLoc, in ssa.Instruction, callee stri
 				alts = append(alts, Eq(c.idx, m.idx))
 			}
 		}
-		fv.oblige(st, kind, Or(alts...), in.Pos())
+		g = Or(alts...)
 	}
-}
-
-func (fv *FV) frameCheckNamed(st *State, addr *Term, isElem bool, kind string, pos token.Pos) {
-	root := addr
-	for root.Op == "emb" || root.Op == "elem" {
-		root = root.Args[0]
-	}
-	for _, l := range st.locals {
-		if root == l || sameTerm(root, l) {
-			return
-		}
-	}
-	alts := []*Term{Ge(RootID(addr), st.frameWM)}
-	for _, m := range st.mods {
-		switch m.kind {
-		case "cell", "gcell":
-			if !isElem {
-				alts = append(alts, Eq(addr, m.addr))
-			}
-		case "fields":
-			if !isElem {
-				p := addr
-				for p.Op == "emb" {
-					p = p.Args[0]
-					alts = append(alts, Eq(p, m.addr))
-				}
-			}
-		case "mem":
-			if isElem {
-				alts = append(alts, Eq(addr, m.addr))
-			}
-		}
-	}
-	g := Or(alts...)
-	if g.IsTrue() {
+	if g == nil || g.IsTrue() {
 		return
 	}
-	fv.oblige(st, kind, g, pos)
+	fv.oblige(st, kind, g, in.Pos())
 }
 
 // ---------------------------------------------------------------- callbacks (function-typed parameters)
@@ -416,7 +386,7 @@ func (fv *FV) applyCallback(fr *Frame, st *State, cb *CallbackContract, args []V
 		post.vars[fmt.Sprintf("res%d", i)] = TV{v, sig.Results().At(i).Type()}
 	}
 	for _, e := range cb.Ensures {
-		st.assume(post.evalBool(e))
+		post.assume(st, e)
 	}
 	return []Outcome{{st: st, results: res}}
 }
@@ -472,10 +442,33 @@ func (fv *FV) callStaticNoInstr(fr *Frame, st *State, fn *ssa.Function, args, bi
 
 func (fv *FV) loopEnv(fr *Frame, st *State) *Env {
 	env := &Env{fv: fv, pkg: fv.pkgPath, st: st, old: fv.entry, vars: map[string]TV{}, fr: fr}
+	// parameters denote their current values inside loop invariants; name$0 is the entry value
 	for k, v := range fv.entryEnv {
-		env.vars[k] = v
+		env.vars[k+"$0"] = v
+		if cur, ok := env.localVar(fv.paramSSAName(k)); ok {
+			env.vars[k] = cur
+		} else {
+			env.vars[k] = v
+		}
 	}
 	return env
+}
+
+// paramSSAName maps a contract parameter name to the source name of the parameter.
+func (fv *FV) paramSSAName(contractName string) string {
+	k := 0
+	if fv.c.Recv != nil {
+		if fv.c.Recv.Name == contractName && len(fv.fn.Params) > 0 {
+			return fv.fn.Params[0].Name()
+		}
+		k = 1
+	}
+	for i, p := range fv.c.Params {
+		if p.Name == contractName && i+k < len(fv.fn.Params) {
+			return fv.fn.Params[i+k].Name()
+		}
+	}
+	return contractName
 }
 
 func (fv *FV) loopEnter(fr *Frame, st *State, li *loopInfo) {
@@ -487,7 +480,7 @@ func (fv *FV) loopEnter(fr *Frame, st *State, li *loopInfo) {
 	for i, inv := range lc.Invariants {
 		fv.oblige(st, fmt.Sprintf("loop %d / invariant-entry #%d", li.ordinal, i+1), env.evalBool(inv), li.head.Instrs[0].Pos())
 	}
-	// havoc everything the loop may change
+	// havoc local variables assigned in the loop
 	seenAlloc := map[*ssa.Alloc]bool{}
 	for b := range li.blocks {
 		for _, in := range b.Instrs {
@@ -502,17 +495,6 @@ func (fv *FV) loopEnter(fr *Frame, st *State, li *loopInfo) {
 					}
 				}
 			}
-			for _, op := range in.Operands(nil) {
-				if op == nil || *op == nil {
-					continue
-				}
-				if a, ok := (*op).(*ssa.Alloc); ok && !seenAlloc[a] {
-					if ref, isHeap := fr.heapLocs[a]; isHeap {
-						seenAlloc[a] = true
-						fv.havocTyped(st, a.Type().(*types.Pointer).Elem(), ref, "loop_"+a.Comment)
-					}
-				}
-			}
 		}
 	}
 	locs := st.mods
@@ -522,18 +504,125 @@ func (fv *FV) loopEnter(fr *Frame, st *State, li *loopInfo) {
 			fv.frameCheckLoc(st, m, li.head.Instrs[0], fmt.Sprintf("loop %d", li.ordinal), 1)
 		}
 	}
-	fv.havoc(st, locs, fmt.Sprintf("loop%d", li.ordinal))
+	fv.havocFramed(st, locs, fmt.Sprintf("loop%d", li.ordinal))
 	nwm := fv.fresh("wm", IntSort)
 	st.assume(Ge(nwm, st.wm))
 	st.wm = nwm
-	st.frameWM = nwm
 	env = fv.loopEnv(fr, st)
 	for _, inv := range lc.Invariants {
-		st.assume(env.evalBool(inv))
+		env.assume(st, inv)
 	}
 	if lc.Decreases != nil {
 		fr.variants[li.head] = env.promote(env.eval(lc.Decreases))
 	}
+}
+
+// havocFramed replaces the whole heap by a fresh one that agrees with the old heap on every
+// location that existed at function entry and is not listed in locs (frame axioms). Objects
+// allocated since function entry may have been changed arbitrarily.
+func (fv *FV) havocFramed(st *State, locs []modLoc, tag string) {
+	wm0 := fv.entry.wm
+	fv.nfresh++
+	a := BoundVar(fmt.Sprintf("a!fr%d", fv.nfresh), RefSort)
+	j := BoundVar(fmt.Sprintf("j!fr%d", fv.nfresh), fv.l.idxSort())
+	par := func(x *Term) *Term { return mk("parentof", RefSort, x) }
+	var cellMods, memMods []*Term
+	for _, m := range locs {
+		switch m.kind {
+		case "cell", "gcell":
+			cellMods = append(cellMods, Eq(a, m.addr), Eq(par(a), m.addr))
+		case "fields":
+			cellMods = append(cellMods, Eq(par(a), m.addr), Eq(par(par(a)), m.addr), Eq(par(par(par(a))), m.addr))
+		case "mem":
+			memMods = append(memMods, Eq(a, m.addr))
+		}
+	}
+	old := Lt(mk("rootid", IntSort, a), wm0)
+	keys := map[string]bool{}
+	for k := range st.heap.arrays {
+		keys[k] = true
+	}
+	if fv.l.mode == ModeInt {
+		for _, k := range []string{"H:Int", "H:Bool", "H:Ref", "M:Int#0", "M:Ref#0", "M:Int#1", "M:Int#2", "M:Int#3", "M:Bool#0"} {
+			keys[k] = true
+		}
+	}
+	for key := range keys {
+		var cur *Term
+		switch {
+		case strings.HasPrefix(key, "H:"):
+			s := sortFromKey(key[2:])
+			_, cur = st.heap.cellArr(s)
+		case strings.HasPrefix(key, "M:"):
+			parts := strings.SplitN(key[2:], "#", 2)
+			k := 0
+			fmt.Sscanf(parts[1], "%d", &k)
+			_, cur = st.heap.elemArr(sortFromKey(parts[0]), k)
+		default:
+			cur = st.heap.arrays[key]
+		}
+		nw := fv.fresh(tag+"_"+key, cur.Sort)
+		isElemArr := strings.HasPrefix(key, "M:")
+		var keep *Term
+		if isElemArr {
+			keep = And(old, Not(Or(memMods...)))
+		} else if strings.HasPrefix(key, "H:") {
+			keep = And(old, Not(Or(cellMods...)))
+		} else {
+			// maps: keyed by the map object
+			var mm []*Term
+			for _, m := range locs {
+				if m.kind == "cell" && m.addr.Op == "emb" {
+					mm = append(mm, Eq(a, m.addr.Args[0]))
+				}
+			}
+			keep = And(old, Not(Or(mm...)))
+		}
+		q := Forall([]*Term{a}, Implies(keep, Eq(Select(nw, a), Select(cur, a))))
+		if q.Op == "forall" {
+			q.Pats = [][]*Term{{Select(nw, a)}}
+		}
+		st.assume(q)
+		if isElemArr {
+			for _, m := range locs {
+				if m.kind != "mem" {
+					continue
+				}
+				rowN, rowO := Select(nw, m.addr), Select(cur, m.addr)
+				q2 := Forall([]*Term{j}, Implies(Not(And(fv.idxLe(m.lo, j), fv.idxLt(j, m.hi))), Eq(Select(rowN, j), Select(rowO, j))))
+				if q2.Op == "forall" {
+					q2.Pats = [][]*Term{{Select(rowN, j)}}
+				}
+				st.assume(Implies(Lt(RootID(m.addr), wm0), q2))
+			}
+		}
+		st.heap.arrays[key] = nw
+	}
+	// ghost state: only what the clause lists
+	var gl []modLoc
+	for _, m := range locs {
+		if m.kind == "ghost" || m.kind == "ghostidx" {
+			gl = append(gl, m)
+		}
+	}
+	fv.havoc(st, gl, tag)
+}
+
+func sortFromKey(k string) *Sort {
+	switch k {
+	case "Int":
+		return IntSort
+	case "Bool":
+		return BoolSort
+	case "Ref":
+		return RefSort
+	}
+	if strings.HasPrefix(k, "BV") {
+		w := 0
+		fmt.Sscanf(k[2:], "%d", &w)
+		return BVSort(w)
+	}
+	panic("sortFromKey " + k)
 }
 
 func (fv *FV) loopBack(fr *Frame, st *State, li *loopInfo) {
@@ -651,7 +740,9 @@ func (fv *FV) builtin(fr *Frame, st *State, b *ssa.Builtin, args []Value, argTyp
 		return Scalar{p}
 	case "StringData":
 		s := args[0].(SliceV)
-		return Scalar{ElemRef(s.Arr, s.Off)}
+		p := ElemRef(s.Arr, s.Off)
+		st.assume(Eq(App("ptr_extent", fv.l.idxSort(), p), s.Len))
+		return Scalar{p}
 	case "String":
 		p := args[0].(Scalar).T
 		n := fv.toIdx(args[1].(Scalar).T, argTypes[1])
@@ -684,7 +775,7 @@ func (fv *FV) copySlices(st *State, dst, src SliceV, et types.Type, x ssa.Instru
 	if cs == nil {
 		fv.fail("copy of composite elements unsupported")
 	}
-	fv.frameCheckCond(st, Gt0(fv, n), dst.Arr, true, x, x.Pos())
+	fv.frameCheckCond(st, Gt0(fv, n), dst.Arr, true, dst.Off, Add(dst.Off, n), x, x.Pos())
 	fv.nfresh++
 	j := BoundVar(fmt.Sprintf("j!cp%d", fv.nfresh), fv.l.idxSort())
 	for k, c := range cs {
@@ -710,7 +801,7 @@ func Gt0(fv *FV, n *Term) *Term {
 	return Gt(n, IntLit(0))
 }
 
-func (fv *FV) frameCheckCond(st *State, cond, addr *Term, isElem bool, in ssa.Instruction, pos token.Pos) {
+func (fv *FV) frameCheckCond(st *State, cond, addr *Term, isElem bool, lo, hi *Term, in ssa.Instruction, pos token.Pos) {
 	if st.modsAny || cond.IsFalse() {
 		return
 	}
@@ -719,7 +810,7 @@ func (fv *FV) frameCheckCond(st *State, cond, addr *Term, isElem bool, in ssa.In
 		st2 = st.clone()
 		st2.assume(cond)
 	}
-	fv.frameCheck(st2, addr, isElem, in, pos)
+	fv.frameCheck(st2, addr, isElem, lo, hi, in, pos)
 }
 
 func (fv *FV) appendSlices(st *State, s, t SliceV, et types.Type, x ssa.Instruction) Value {
@@ -744,7 +835,7 @@ func (fv *FV) appendSlices(st *State, s, t SliceV, et types.Type, x ssa.Instruct
 	newCap := fv.fresh("appendcap", IntSort)
 	st.assume(And(Ge(newCap, newLen), Le(newCap, IntLit(maxSliceCap))))
 	fv.oblige(st, fmt.Sprintf("append-size #%d", fv.ordinal("append", x)), Le(newLen, IntLit(maxSliceCap)), x.Pos())
-	fv.frameCheckCond(st, inPlace, s.Arr, true, x, x.Pos())
+	fv.frameCheckCond(st, inPlace, s.Arr, true, Add(s.Off, s.Len), Add(Add(s.Off, s.Len), n), x, x.Pos())
 	fv.nfresh++
 	j := BoundVar(fmt.Sprintf("j!ap%d", fv.nfresh), IntSort)
 	for k, c := range cs {
@@ -851,7 +942,7 @@ func (fv *FV) mapUpdate(fr *Frame, st *State, x *ssa.MapUpdate) {
 	mt, ks := fv.mapKeys(x.Map.Type())
 	k := fv.val(fr, x.Key).(Scalar).T
 	fv.oblige(st, fmt.Sprintf("map-nil-write #%d", fv.ordinal("map-nil-write", x)), Neq(m, NilRef), x.Pos())
-	fv.frameCheck(st, Emb(m, -2), false, x, x.Pos())
+	fv.frameCheck(st, Emb(m, -2), false, nil, nil, x, x.Pos())
 	v := fv.val(fr, x.Value)
 	vcs := fv.l.comps(mt.Elem())
 	if vcs == nil {
@@ -906,7 +997,7 @@ func (fv *FV) lookup(fr *Frame, st *State, x *ssa.Lookup) Value {
 func (fv *FV) mapDelete(st *State, m *Term, kv Value, mapT types.Type, x ssa.Instruction) {
 	mt, ks := fv.mapKeys(mapT)
 	k := kv.(Scalar).T
-	fv.frameCheckCond(st, Neq(m, NilRef), Emb(m, -2), false, x, x.Pos())
+	fv.frameCheckCond(st, Neq(m, NilRef), Emb(m, -2), false, nil, nil, x, x.Pos())
 	dk, dom := fv.mapDom(st, mt, ks)
 	was := And(Neq(m, NilRef), Select(Select(dom, m), k))
 	st.heap.arrays[dk] = Store(dom, m, Store(Select(dom, m), k, False))
